@@ -133,6 +133,50 @@ def _n1_exception(eng, fi, cfg, ci):
     return True
 
 
+def rule_random_defaults(eng, rep, rule="C19-1b.random-options-are-off-by-default"):
+    """The guards of C19-1 accept a documented random option as justification.  That is only sound if those options are *off* unless the user turns
+    them on: literal False / 0 defaults, `npt - 1` initial directions (no growing phase), and random initial directions by default exactly when the
+    deterministic coordinate initialisation cannot be used (its own precondition npt <= (n+1)(n+2)/2 fails)."""
+    from .c07 import param_registry
+    from ..norm import atom_of
+    defaults, typed = param_registry(eng)
+    init = eng.fn("params.ParameterList.__init__")
+    site = eng.where(init)
+    # the precondition of the deterministic initialiser
+    ci = eng.fn("controller.Controller.initialise_coordinate_directions")
+    pre = None
+    for node in eng.prog.own_nodes(ci):
+        if isinstance(node, ast.Assert) and isinstance(node.test, ast.Compare) and len(node.test.ops) == 1 and "num_pts" in ekey(node.test.left) and isinstance(node.test.ops[0], (ast.LtE, ast.Lt)):
+            pre = node.test
+    for (key, _r) in tables.RANDOM_OPTION_KEYS:
+        d = defaults.get(key)
+        if d is None:
+            rep.unknown(rule, site, "documented random option '%s' has no default" % key)
+            continue
+        okc, how = False, ""
+        if isinstance(d, ast.Constant) and d.value in (False, 0):
+            okc, how = True, "default %r" % d.value
+        elif key == "growing.ndirs_initial" and ekey(d).replace(" ", "") == "npt-1":
+            okc, how = True, "default npt - 1: the initial set is complete, no growing phase"
+        elif key == "init.random_initial_directions" and isinstance(d, ast.IfExp) and isinstance(d.body, ast.Constant) and d.body.value is True \
+                and isinstance(d.orelse, ast.Constant) and d.orelse.value is False and pre is not None:
+            # default is True exactly when the deterministic initialiser's precondition fails:  cond  ==  not (npt <= K)
+            t = d.test
+            def norm(e):
+                return ekey(e).replace("self.n()", "n").replace("self.model.num_pts", "npt").replace(" ", "")
+            if isinstance(t, ast.Compare) and len(t.ops) == 1:
+                exact = isinstance(t.ops[0], ast.Gt) and isinstance(pre.ops[0], ast.LtE) and norm(t.left) == norm(pre.left) and norm(t.comparators[0]) == norm(pre.comparators[0])
+                exact = exact or (isinstance(t.ops[0], ast.GtE) and isinstance(pre.ops[0], ast.Lt) and norm(t.left) == norm(pre.left) and norm(t.comparators[0]) == norm(pre.comparators[0]))
+                if exact:
+                    okc, how = True, "default is True exactly when `%s` (the precondition of the coordinate initialisation) fails" % ekey(pre)
+                else:
+                    how = "default `%s` is not the exact negation of the coordinate initialiser's precondition `%s`: some supported npt gets random directions without the user asking" % (ekey(d), ekey(pre))
+        if okc:
+            rep.ok(rule, site, "'%s': %s" % (key, how))
+        else:
+            rep.bad(rule, site, "params|random-option-on-by-default|%s" % key, how or "documented random option '%s' defaults to `%s`: results depend on the global generator without the user enabling anything" % (key, ekey(d)))
+
+
 BAD_IMPORTS = {"random", "time", "uuid", "secrets", "datetime"}
 BAD_CALLS = {"id", "hash", "input"}
 
@@ -385,5 +429,6 @@ def run(eng, rep):
     rep.not_decided += ["bit-identical repetition additionally assumes deterministic NumPy/SciPy kernels (trusted)"]
     rep.assumptions += ["astype() copies by default, slicing/.T/reshape/asarray are views, list()/dict() build new containers"]
     rule_rng_guarded(eng, rep)
+    rule_random_defaults(eng, rep)
     rule_no_hidden_state(eng, rep)
     rule_caller_data(eng, rep)
